@@ -17,7 +17,7 @@ BLOCK_TOP_KINDS = ['twin_classes', 'main_else_def', 'ifnot_main_def', 'ifne_main
                    'finally_def', 'for_def', 'with_def', 'while_def', 'cmdef', 'lrudef', 'if_class', 'subclass']
 BLOCK_MEMBER_KINDS = ['cmmethod', 'cachedprop', 'if_method', 'prop_deco']
 LAYOUTS = ['freeform1', 'none', 'freeform2', 'google1', 'google2', 'doctestblock', 'google_after_args', 'mixed',
-           'google_space', 'google_kinds', 'free_after_word', 'google_blank2']
+           'google_space', 'google_kinds', 'free_after_word', 'google_blank2', 'google_bad_later', 'google_bad_first']
 STYLES = ['auto', 'google', 'freeform']
 TOKEN_RE = re.compile(r'tok_\d+')
 
@@ -95,6 +95,14 @@ def doc_body(layout, tok):
         # no summary: two blank lines, then the first tag
         t = tok()
         return (['', '', 'Example:'] + ['    ' + l for l in ex(t)]), [('google', [t])]
+    if layout == 'google_bad_later':
+        # a well-formed block, then a block that cannot be parsed (reported by a warning), then another good one
+        t1, t2 = tok(), tok()
+        return (['Summary line.', '', 'Example:'] + ['    ' + l for l in ex(t1)] +
+                ['', 'Example:', '    >>> x = (', '    >>> y = 1', '', 'Example:'] + ['    ' + l for l in ex(t2)]), [('google', [t1]), ('bad', []), ('google', [t2])]
+    if layout == 'google_bad_first':
+        t1 = tok()
+        return (['Summary line.', '', 'Example:', '    >>> x = (', '    >>> y = 1', '', 'Example:'] + ['    ' + l for l in ex(t1)]), [('bad', []), ('google', [t1])]
     if layout == 'mixed':
         t1, t2 = tok(), tok()
         return (['Summary line.', ''] + ex(t1) + ['', 'Example:'] + ['    ' + l for l in ex(t2)]), [('free', [t1]), ('google', [t2])]
@@ -105,6 +113,14 @@ def expected_for(groups, style):
     """list of token tuples, one per expected doctest, in order"""
     if not groups:
         return []
+    kinds = [k for k, t in groups]
+    if 'bad' in kinds:
+        # a block that cannot be parsed ends the extraction of its docstring with a warning: the blocks in front of it
+        # are kept (google, and auto which uses the google blocks when there are any), the docstring as a whole (freeform)
+        # yields nothing
+        if style == 'freeform':
+            return []
+        return [tuple(t) for k, t in groups[:kinds.index('bad')] if k == 'google']
     blocks = [tuple(t) for k, t in groups if k == 'google']
     alltoks = tuple(t for k, ts in groups for t in ts)
     if style == 'freeform':
